@@ -24,18 +24,21 @@ type colSpec struct {
 	counters []string    // counter mode: local int counters, in output order
 	appendTo string      // append mode: the slice variable
 	ints     bool        // append mode over Int-valued variables
+	skips    bool        // skip mode: the translatable conditions of every `if c { ...; continue }` (no else) of the function
 }
 
 var colSpecs = []colSpec{
-	{"pkg/closest/closest.go", "rawDistance", [][2]string{{"query.Seq[i]", "q"}, {"tNuc", "t"}}, []string{"n", "d"}, "", false},
-	{"pkg/closest/closest.go", "snpDistance", [][2]string{{"query.Seq[i]", "q"}, {"tNuc", "t"}}, []string{"n"}, "", false},
-	{"pkg/closest/closest.go", "tn93Distance", [][2]string{{"query.Seq[i]", "q"}, {"tNuc", "t"}}, []string{"count_P1", "count_P2", "count_d", "count_L"}, "", false},
-	{"pkg/closest/closest.go", "findClosest", [][2]string{{"query.Seq[i]", "q"}, {"tNuc", "t"}}, nil, "snps", false},
-	{"pkg/snps/snps.go", "getSNPs", [][2]string{{"refSeq[i]", "r"}, {"nuc", "q"}}, nil, "SNPs", false},
-	{"pkg/updown/input.go", "getLines", [][2]string{{"refSeq[i]", "r"}, {"que_nuc", "q"}}, nil, "snps", false},
-	{"pkg/variants/pairwise.go", "getNucsPair", [][2]string{{"ref[alignPos]", "r"}, {"query[alignPos]", "q"}}, nil, "variants", false},
-	{"pkg/variants/pairwise.go", "getAAsPair", [][2]string{{"ref[alignmentPos]", "r"}, {"query[alignmentPos]", "q"}}, nil, "codonSNPs", false},
-	{"pkg/variants/variants.go", "WriteVariants", [][2]string{{"start", "start"}, {"end", "stop"}, {"v.Position", "pos"}}, nil, "sa", true},
+	{"pkg/closest/closest.go", "rawDistance", [][2]string{{"query.Seq[i]", "q"}, {"tNuc", "t"}}, []string{"n", "d"}, "", false, false},
+	{"pkg/closest/closest.go", "snpDistance", [][2]string{{"query.Seq[i]", "q"}, {"tNuc", "t"}}, []string{"n"}, "", false, false},
+	{"pkg/closest/closest.go", "tn93Distance", [][2]string{{"query.Seq[i]", "q"}, {"tNuc", "t"}}, []string{"count_P1", "count_P2", "count_d", "count_L"}, "", false, false},
+	{"pkg/closest/closest.go", "findClosest", [][2]string{{"query.Seq[i]", "q"}, {"tNuc", "t"}}, nil, "snps", false, false},
+	{"pkg/snps/snps.go", "getSNPs", [][2]string{{"refSeq[i]", "r"}, {"nuc", "q"}}, nil, "SNPs", false, false},
+	{"pkg/updown/input.go", "getLines", [][2]string{{"refSeq[i]", "r"}, {"que_nuc", "q"}}, nil, "snps", false, false},
+	{"pkg/variants/pairwise.go", "getNucsPair", [][2]string{{"ref[alignPos]", "r"}, {"query[alignPos]", "q"}}, nil, "variants", false, false},
+	{"pkg/variants/pairwise.go", "getAAsPair", [][2]string{{"ref[alignmentPos]", "r"}, {"query[alignmentPos]", "q"}}, nil, "codonSNPs", false, false},
+	{"pkg/variants/variants.go", "WriteVariants", [][2]string{{"start", "start"}, {"end", "stop"}, {"v.Position", "pos"}}, nil, "sa", true, false},
+	{"pkg/sam/sam.go", "groupSamRecords", [][2]string{{"rec.Flags", "f"}}, nil, "", false, true},
+	{"pkg/sam/indels.go", "getSamRecords", [][2]string{{"rec.Flags", "f"}}, nil, "", false, true},
 }
 
 type colTr struct {
@@ -280,6 +283,22 @@ func dumpCols(root string) string {
 		t := &colTr{fset: fset, vars: map[string]string{}, ints: sp.ints}
 		for _, v := range sp.vars {
 			t.vars[v[0]] = v[1]
+		}
+		if sp.skips {
+			var conds []string
+			ast.Inspect(fd.Body, func(n ast.Node) bool {
+				if is, ok := n.(*ast.IfStmt); ok && is.Else == nil && endsInJump(is.Body) {
+					if br, ok := is.Body.List[len(is.Body.List)-1].(*ast.BranchStmt); ok && br.Tok == token.CONTINUE {
+						if c := t.boolean(is.Cond); !strings.Contains(c, "untranslatable") {
+							conds = append(conds, c)
+						}
+					}
+				}
+				return true
+			})
+			fmt.Fprintf(&b, "/-- %s, %s: the conditions on %s under which a record is skipped (`continue`) -/\n", sp.file, sp.fn, sp.vars[0][0])
+			fmt.Fprintf(&b, "def %s (%s : %s) : List Bool := [%s]\n\n", name, args, typ, strings.Join(conds, ", "))
+			continue
 		}
 		if sp.appendTo != "" {
 			var conds []string
